@@ -254,7 +254,11 @@ struct Harness {
          break;
       }
       case LINKAGE: {
+         // a linkage the Lexicon already has (or a standard one) may be asked for through the client's recycled String slot
+         const bool known = r.word == "C" || r.word == "C++" || fwd[LINKAGE].count([&] { std::string k; puts(k, r.word); return k; }());
+         if (known) recyclable.insert(r.word); else recyclable.erase(r.word);
          auto& n = (variant & 1) ? lex.get_linkage(str(r.word, variant)) : lex.get_linkage(u8);
+         recyclable.erase(r.word);
          puts(key, r.word); node = &n;
          if (narrow(n.language().what().characters()) != r.word) bad(r, "linkage spelled differently from the request");
          if (r.word == "C") { is_constant = true; if (&n != &L.c_linkage()) ctx().viol("linkage:C-lookalike", "get_linkage(\"C\") is not Lexicon::c_linkage()", describe(r)); }
@@ -322,6 +326,14 @@ struct Harness {
          Req r; r.ctor = IDENT; r.word = rng.pick(known);
          execute(r, 1 | (3 << 2));
       }
+      // the same with linkages: vendor languages the Lexicon knows and the two standard ones, one after the other through the slot
+      std::vector<std::string> langs { "C", "C++" };
+      for (auto& r : history) if (r.ctor == LINKAGE && r.word != "C" && r.word != "C++") langs.push_back(r.word);
+      if (langs.size() > 2)
+         for (int k = 0; k < 120; ++k) {
+            Req r; r.ctor = LINKAGE; r.word = k % 3 == 0 ? langs[2 + rng.below(langs.size() - 2)] : k % 3 == 1 ? "C" : (rng.chance(50) ? "C++" : rng.pick(langs));
+            execute(r, 1 | (3 << 2)); ctx().count("linkages_asked_through_the_recycled_slot");
+         }
       ctx().count("recycled_slot_bursts");
    }
    // every request of the history once more, through a random equivalent entry point
@@ -448,7 +460,7 @@ static void body(Ctx& C)
           "pairs of a spelling pool; live tables validated through the hook");
    C.assume("the 56 reserved spellings of the pinned tree are the oracle for which identifiers are process-wide constants");
    for (int c = 0; c < NCTOR; ++c) { C.need(std::string("distinct_keys:") + ctor_name[c]); C.need(std::string("re_requests:") + ctor_name[c]); }
-   C.need("spellings_in_an_unterminated_buffer"); C.need("spellings_as_the_front_of_a_longer_buffer"); C.need("string_operands_from_another_lexicon"); C.need("string_operands_free_standing"); C.need("string_operands_in_a_recycled_slot"); C.need("recycled_slot_bursts"); C.need("single_identifier_checks"); C.need("reserved_word_checks"); C.need("equality_pairs"); C.need("table_validations");
+   C.need("spellings_in_an_unterminated_buffer"); C.need("spellings_as_the_front_of_a_longer_buffer"); C.need("string_operands_from_another_lexicon"); C.need("string_operands_free_standing"); C.need("string_operands_in_a_recycled_slot"); C.need("recycled_slot_bursts"); C.need("linkages_asked_through_the_recycled_slot"); C.need("single_identifier_checks"); C.need("reserved_word_checks"); C.need("equality_pairs"); C.need("table_validations");
    C.need("string_pool_rollovers_during_name_requests"); C.need("final_replays"); C.need("symbol_route_label"); C.need("symbol_route_this"); C.need("symbol_route_direct");
    const int histories = C.thorough ? 12 : 3;
    const long long nreq = C.thorough ? 150000 : 6000;
